@@ -185,9 +185,20 @@ def own_strategy(tier):
                 c["start"] += 10 * gen.SEC
                 c["end"] += 10 * gen.SEC
         else:
-            # every cue lasts at least one MicroDVD frame (40 ms): a cue lying wholly inside
-            # frame 0 would be written {0}{0}..., which the format reserves for the fps header
-            s = draw(gen.simple_set(ln, 1, 3, min_dur=40 * gen.MS, empty_lines=False))
+            # any duration, except that a cue lying wholly inside MicroDVD frame 0 would be
+            # written {0}{0}..., which the format reserves for the frame-rate declaration
+            s = draw(gen.simple_set(ln, 1, 3, min_dur=0, empty_lines=False))
+            if draw(st.integers(0, 3)) == 0:
+                # cues shorter than a frame, early in the file ({1}{1}, {1}{2}, ...)
+                t0 = draw(st.integers(0, 400)) * 1000
+                for c in s["langs"][0]["cues"]:
+                    d = draw(st.integers(0, 60)) * 1000
+                    c["start"], c["end"] = t0, t0 + d
+                    t0 += d + draw(st.integers(1, 50)) * 1000
+            if w == "microdvd":
+                for c in s["langs"][0]["cues"]:
+                    if c["end"] < 40000:
+                        c["end"] = 40000 + c["end"] % 1000
         return {"writer": w, "set": s}
     return build()
 
